@@ -31,6 +31,9 @@ def run(rep, idx, tier):
     rep.require("C14.3", 4)
     rep.require("C14.4", 3)
     rep.require("C14.5", 1)
+    rep.require("C14.6", 1)
+    from . import glue as _g6
+    _g6.reset_discipline(rep, "C14.6", idx, ["csr/event:EventMonitor"])
     from . import glue as _glue
     _glue.write_once_handles(rep, "C14.5", idx, "csr/event:EventMonitor")
     c = get_ctx(idx, "EventMonitor.elaborate")
